@@ -7,6 +7,8 @@ import (
 	"fmt"
 	"math/bits"
 	"strings"
+
+	"github.com/alicebob/sqlittle/internal/ascii"
 )
 
 const (
@@ -306,12 +308,12 @@ func (db *Database) master() ([]sqliteMaster, error) {
 		if s, ok := e[1].(string); !ok {
 			return false, ErrInvalidDef
 		} else {
-			m.name = strings.ToLower(s)
+			m.name = ascii.Lower(s)
 		}
 		if s, ok := e[2].(string); !ok {
 			return false, ErrInvalidDef
 		} else {
-			m.tblName = strings.ToLower(s)
+			m.tblName = ascii.Lower(s)
 		}
 		if n, ok := e[3].(int64); !ok {
 			return false, ErrInvalidDef
@@ -425,7 +427,7 @@ func (db *Database) Table(name string) (*Table, error) {
 	if err != nil {
 		return nil, err
 	}
-	n := strings.ToLower(name)
+	n := ascii.Lower(name)
 	for _, o := range objects {
 		if o.typ == "table" && o.name == n {
 			return &Table{db: db, root: o.rootPage, sql: o.sql}, nil
@@ -441,7 +443,7 @@ func (db *Database) NonRowidTable(name string) (*Index, error) {
 	if err != nil {
 		return nil, err
 	}
-	n := strings.ToLower(name)
+	n := ascii.Lower(name)
 	for _, o := range objects {
 		if o.typ == "table" && o.name == n {
 			return &Index{db: db, root: o.rootPage, sql: o.sql}, nil
@@ -461,7 +463,7 @@ func (db *Database) Index(name string) (*Index, error) {
 	if err != nil {
 		return nil, err
 	}
-	n := strings.ToLower(name)
+	n := ascii.Lower(name)
 	for _, o := range objects {
 		if o.typ == "index" && o.name == n {
 			return &Index{db: db, root: o.rootPage, sql: o.sql}, nil
